@@ -1,9 +1,9 @@
 (** FragSmall: bounded exhaustive check of C13 by computation: every item list of length <= 5 over
-    a 14-item alphabet (leading / non-leading descriptors with and without symbol, one- and
+    a 15-item alphabet (leading / non-leading descriptors with and without symbol (also the order-0 symbol), one- and
     two-letter atoms, bracket atoms with and without annotation, bond, branch, ring markers with
     and without symbol, slash).  Independent of the inductive proof in FragProofs.v. *)
 From Coq Require Import String.
-From Coq Require Import List Ascii ZArith Bool.
+From Coq Require Import List Ascii ZArith Bool Lia.
 From CGV Require Import Base.PyBase Base.PyVal Dialect.DialectImpl Frag.NDict Frag.StripImpl Frag.FragText Frag.StripFacts.
 Import ListNotations.
 
@@ -68,17 +68,11 @@ Definition ok_eqb (a b : res result) : bool :=
 Lemma ok_eqb_sound a b : ok_eqb a b = true -> a = b.
 Proof. destruct a, b; cbn; try discriminate. intros H. f_equal. now apply result_eqb_sound. Qed.
 
-Fixpoint lists_upto {A} (n : nat) (alphabet : list A) : list (list A) :=
-  match n with
-  | O => [[]]
-  | Datatypes.S k => [] :: flat_map (fun l => map (fun a => a :: l) alphabet) (lists_upto k alphabet)
-  end.
-
 Definition small_alphabet : list ditem :=
   [ ILead (mkd "$" [] None); ILead (mkd "<" (S "a") (Some BDouble));
     ITok C_; ITok (TAtom (S "Cl")); ITok (TBracket (S "NH3+") None); ITok (TBracket (S "C") (Some (S "x=R")));
     ITok (TBond BDouble); ITok TOpen; ITok TClose; ITok (TRing None (S "1")); ITok (TRing (Some BDouble) (S "%12"));
-    ITok (TSlash true); IDesc (mkd "$" [] None); IDesc (mkd ">" (S "1") (Some BTriple)) ].
+    ITok (TSlash true); IDesc (mkd "$" [] None); IDesc (mkd ">" (S "1") (Some BTriple)); IDesc (mkd "!" [] (Some BZero)) ].
 Definition small_bound : nat := 5.
 
 Definition check_item_list (items : list ditem) : bool :=
@@ -86,17 +80,44 @@ Definition check_item_list (items : list ditem) : bool :=
   then ok_eqb (strip_bonding_descriptors fo0 (render items)) (spec_items fo0 items)
   else true.
 
-Lemma small_all : forallb check_item_list (lists_upto small_bound small_alphabet) = true.
+(** depth-first enumeration of all lists of length <= n over the alphabet (built from the right),
+    without materialising the list of lists *)
+Fixpoint all_ok (alphabet : list ditem) (n : nat) (suffix : list ditem) : bool :=
+  check_item_list suffix &&
+  match n with
+  | O => true
+  | Datatypes.S k => forallb (fun a => all_ok alphabet k (a :: suffix)) alphabet
+  end.
+Lemma all_ok_spec alphabet : forall n suffix, all_ok alphabet n suffix = true ->
+  forall l, length l <= n -> (forall i, In i l -> In i alphabet) -> check_item_list (l ++ suffix) = true.
+Proof.
+  induction n as [|k IH]; intros suffix H l L A; cbn [all_ok] in H; apply andb_prop in H; destruct H as [H1 H2].
+  - destruct l; [assumption|cbn in L; lia].
+  - destruct l as [|x l0] eqn:El; [assumption|].
+    assert (NE : x :: l0 <> []) by discriminate.
+    destruct (exists_last NE) as [l' [a E]]. rewrite E in *. clear El NE E.
+    rewrite <- app_assoc. cbn [app].
+    rewrite forallb_forall in H2. apply (IH (a :: suffix)).
+    + apply H2. apply A. apply in_or_app. right. left. reflexivity.
+    + rewrite app_length in L. cbn in L. lia.
+    + intros i I. apply A. apply in_or_app. left. assumption.
+Qed.
+
+Lemma small_all : all_ok small_alphabet small_bound [] = true.
 Proof. vm_compute. reflexivity. Qed.
 
-Theorem strip_small : forall items, In items (lists_upto small_bound small_alphabet) ->
+Theorem strip_small : forall items, length items <= small_bound -> (forall i, In i items -> In i small_alphabet) ->
   wf_items ZStart 0 items = true -> excluded_items items = false ->
   strip_bonding_descriptors fo0 (render items) = spec_items fo0 items.
 Proof.
-  intros items I W X. pose proof small_all as H. rewrite forallb_forall in H. specialize (H items I).
-  unfold check_item_list in H. rewrite W, X in H. cbn in H. now apply ok_eqb_sound.
+  intros items L A W X. pose proof (all_ok_spec small_alphabet small_bound [] small_all items L A) as H.
+  rewrite app_nil_r in H. unfold check_item_list in H. rewrite W, X in H. cbn in H. now apply ok_eqb_sound.
 Qed.
-(** how many of the enumerated lists are in the domain and outside the defect classes *)
-Definition small_judged : nat :=
-  fold_left (fun n items => if wf_items ZStart 0 items && negb (excluded_items items) then Datatypes.S n else n)
-            (lists_upto small_bound small_alphabet) 0.
+(** how many of the enumerated lists are in the domain and outside the defect class *)
+Fixpoint count_judged (alphabet : list ditem) (n : nat) (suffix : list ditem) : nat :=
+  (if wf_items ZStart 0 suffix && negb (excluded_items suffix) then 1 else 0) +
+  match n with
+  | O => 0
+  | Datatypes.S k => fold_left (fun acc a => acc + count_judged alphabet k (a :: suffix)) alphabet 0
+  end.
+Definition small_judged : nat := count_judged small_alphabet small_bound [].
